@@ -748,3 +748,58 @@ V(id='c24-benign-cap-in-condition', prop='C24', file='mpmath/libmp/libhyper.py',
   old="    while _abs(tre) + _abs(tim) > 1000:\n        #print tre, tim\n        tre, tim = ((tre*xre-tim*xim)*k)>>prec, ((tre*xim+tim*xre)*k)>>prec\n        sre += tre\n        sim += tim\n        k += 1\n        if k > prec:\n            raise NoConvergence\n    return sre, sim",
   new="    while _abs(tre) + _abs(tim) > 1000 and k <= prec:\n        tre, tim = ((tre*xre-tim*xim)*k)>>prec, ((tre*xim+tim*xre)*k)>>prec\n        sre += tre\n        sim += tim\n        k += 1\n    if k > prec:\n        raise NoConvergence\n    return sre, sim",
   expect='silent')
+
+# ---------------------------------------------------------------- C34 -------
+V(id='c34-workprec-from-caller', prop='C34', file='mpmath/calculus/odes.py',
+  old="            ctx.prec = workprec\n            ser, xa, xb = get_series(x)",
+  new="            ctx.prec = orig + 40\n            ser, xa, xb = get_series(x)",
+  expect='fire:O-R1:interpolant')
+V(id='c34-eval-outside-region', prop='C34', file='mpmath/calculus/odes.py',
+  old="            ser, xa, xb = get_series(x)\n            y = mpolyval(ser, x-xa)\n        finally:\n            ctx.prec = orig\n",
+  new="            ser, xa, xb = get_series(x)\n        finally:\n            ctx.prec = orig\n        y = mpolyval(ser, x-xa)\n",
+  expect='fire:O-R1:interpolant')
+V(id='c34-workprec-reassigned', prop='C34', file='mpmath/calculus/odes.py',
+  old="    def interpolant(x):\n        x = ctx.convert(x)\n        orig = ctx.prec",
+  new="    def interpolant(x):\n        nonlocal workprec\n        x = ctx.convert(x)\n        orig = ctx.prec\n        workprec = max(workprec, orig + 40)",
+  expect='fire:O-R1')
+V(id='c34-extension-tolerance-live', prop='C34', file='mpmath/calculus/odes.py',
+  old="            ser, xb = ode_taylor(ctx, F, xb, y, tol_prec, degree)\n            series_boundaries.append(xb)",
+  new="            ser, xb = ode_taylor(ctx, F, xb, y, ctx.prec+10, degree)\n            series_boundaries.append(xb)",
+  expect='fire:O-R1:get_series')
+V(id='c34-cache-trimmed', prop='C34', file='mpmath/calculus/odes.py',
+  old="            series_data.append((ser, xa, xb))\n",
+  new="            series_data.append((ser, xa, xb))\n            if len(series_data) > 64:\n                series_data.pop(0)\n                series_boundaries.pop(0)\n",
+  expect='fire:O-R2:get_series')
+V(id='c34-boundary-not-recorded', prop='C34', file='mpmath/calculus/odes.py',
+  old="            series_boundaries.append(xb)\n            series_data.append((ser, xa, xb))",
+  new="            series_data.append((ser, xa, xb))\n            if x > xb:\n                series_boundaries.append(xb)",
+  expect='fire:O-R2:get_series')
+V(id='c34-bisect-left', prop='C34', file='mpmath/calculus/odes.py',
+  old="from bisect import bisect\n", new="from bisect import bisect_left as bisect\n",
+  expect='fire:O-R3:get_series')
+V(id='c34-no-left-guard', prop='C34', file='mpmath/calculus/odes.py',
+  old="        if x < x0:\n            raise ValueError\n", new="",
+  expect='fire:O-R3:get_series')
+V(id='c34-index-off-by-one', prop='C34', file='mpmath/calculus/odes.py',
+  old="            return series_data[n-1]", new="            return series_data[n]",
+  expect='fire:O-R3:get_series')
+V(id='c34-extension-exit-wrong-side', prop='C34', file='mpmath/calculus/odes.py',
+  old="            if x <= xb:\n                return series_data[-1]", new="            if x >= xb:\n                return series_data[-1]",
+  expect='fire:O-R4:get_series')
+V(id='c34-radius-last-component', prop='C34', file='mpmath/calculus/odes.py',
+  old="            radius = min(radius, ctx.nthroot(tol/abs(ts[-1]), n))\n    radius /= 2  # XXX",
+  new="            radius = ctx.nthroot(tol/abs(ts[-1]), n)\n    radius = min(radius, ctx.one) / 2  # XXX",
+  expect='fire:O-R5:ode_taylor')
+V(id='c34-radius-enlarged', prop='C34', file='mpmath/calculus/odes.py',
+  old="    radius /= 2  # XXX", new="    radius *= 2  # XXX", expect='fire:O-R5:ode_taylor')
+V(id='c34-result-not-rerounded', prop='C34', file='mpmath/calculus/odes.py',
+  old="            return +y[0]\n    return interpolant", new="            return y[0]\n    return interpolant",
+  expect='fire:O-R6:interpolant')
+V(id='c34-benign-bisect-right', prop='C34', file='mpmath/calculus/odes.py',
+  old="from bisect import bisect\n", new="from bisect import bisect_right as bisect\n", expect='silent')
+V(id='c34-benign-rename-and-temp', prop='C34', file='mpmath/calculus/odes.py',
+  edits=[("    workprec = ctx.prec + 40\n", "    wp_frozen = ctx.prec + 45\n"),
+         ("            ctx.prec = workprec\n", "            ctx.prec = wp_frozen\n"),
+         ("        if return_vector:\n            return [+yk for yk in y]\n        else:\n            return +y[0]",
+          "        if return_vector:\n            out = [+yk for yk in y]\n            return out\n        else:\n            return +y[0]")],
+  expect='silent')
